@@ -120,17 +120,38 @@ Vocab(t) == CASE t = "Base" -> ItemsBase [] t = "Outer" -> ItemsOuter [] t = "Ou
 Core(t) == CASE t = "Base"  -> {1, 3, 4, 5, 6, 8, 12, 17, 19, 23, 24, 26, 27, 29, 30, 31, 33, 34, 36, 38, 39, 41, 43, 45}
              [] t = "Outer" -> {2, 4, 6, 7, 10, 11, 13, 14, 15, 17, 19, 20, 21, 22, 24, 25}
              [] OTHER       -> 1..Len(Vocab(t))
+\* ---------------------------------------------------------------- defaults that are specs x channels (declared class Base)
+Defaults == << CPI(Path("Sub1"), D1("b", VStr("k"))),            \* lazy_instance(Sub1, b="k")
+               CP(Path("SubKw")),                                 \* lazy_instance(SubKw)
+               CPI(Path("Sub2"), D1("c", VInt(4))) >>             \* lazy_instance(Sub2, c=4)
+Chans == <<"argv", "dcf", "env", "string">>
+FirstD == << D1("init_args", D1("a", VInt(5))), D1("a", VInt(5)), D1("b", VStr("w")), Bare("Sub2"), CPI(Path("Sub3"), D1("a", VStr("u"))),
+             Bare("Sub1"), D1("init_args", D1("zz", VInt(1))), D1("init_args", D1("c", VInt(7))), Bare("Base") >>
+\* after a default config file only sources that do not designate a class follow (see design.d/C14.md)
+SecondD == << Dt(<<"a">>, VInt(9)), Dt(<<"b">>, VStr("z")), W(D1("init_args", D1("a", VInt(6)))), Dt(<<"c">>, VInt(2)) >>
+DIds == {<<"D", d, ch, i1, i2>> : d \in 1..Len(Defaults), ch \in 1..2, i1 \in 1..Len(FirstD), i2 \in 0..Len(SecondD)}
+        \cup {<<"D", d, ch, i1, 0>> : d \in 1..Len(Defaults), ch \in 3..4, i1 \in 1..Len(FirstD)}
+        \cup {<<"D", d, 1, 0, i2>> : d \in 1..Len(Defaults), i2 \in 0..Len(SecondD)}                 \* the default alone / only a dotted option
+DItems(id) == (IF id[4] = 0 THEN << >> ELSE <<W(FirstD[id[4]])>>) \o (IF id[5] = 0 THEN << >> ELSE <<SecondD[id[5]]>>)
+
 \* ids: <<declared class, i1, i2, i3>>, 0 = no further source
 Ids == UNION {{<<Decl[d], i1, 0, 0>> : i1 \in 1..Len(Vocab(Decl[d]))} : d \in 1..Len(Decl)}
   \cup (IF MaxLen >= 2 THEN UNION {{<<Decl[d], i1, i2, 0>> : i1 \in 1..Len(Vocab(Decl[d])), i2 \in 1..Len(Vocab(Decl[d]))} : d \in 1..Len(Decl)} ELSE {})
   \cup (IF MaxLen >= 3 THEN UNION {{<<Decl[d], i1, i2, i3>> : i1 \in Core(Decl[d]), i2 \in Core(Decl[d]), i3 \in Core(Decl[d])} : d \in 1..Len(Decl)} ELSE {})
 ItemsOf(id) == LET v == Vocab(id[1]) IN
   <<v[id[2]]>> \o (IF id[3] = 0 THEN << >> ELSE <<v[id[3]]>>) \o (IF id[4] = 0 THEN << >> ELSE <<v[id[4]]>>)
-Case(id, items) == [aid |-> id, T |-> id[1], items |-> items]
+Case(id, items) == IF id[1] = "D" THEN [aid |-> id, T |-> "Base", items |-> items, dflt |-> Defaults[id[2]], chan |-> Chans[id[3]]]
+                   ELSE [aid |-> id, T |-> id[1], items |-> items, dflt |-> NoVal, chan |-> "argv"]
 MCFamOf(c) == Fam                  \* FamOf <- MCFamOf in the cfg: the family is not part of the state
 
-Init == \E id \in Ids : /\ cs = Case(id, << >>) /\ pc = "build" /\ i = 1 /\ cur = NoVal /\ ok = "run" /\ log = << >>
-ABuild == /\ pc = "build" /\ cs' = Case(cs.aid, ItemsOf(cs.aid)) /\ pc' = "source" /\ UNCHANGED <<i, cur, ok, log>>
+Init == \E id \in Ids \cup DIds : /\ cs = Case(id, << >>) /\ pc = "build" /\ i = 1 /\ cur = NoVal /\ ok = "run" /\ log = << >>
+\* the first step builds the case and does what InitCase does
+ABuild == /\ pc = "build"
+          /\ LET c == Case(cs.aid, IF cs.aid[1] = "D" THEN DItems(cs.aid) ELSE ItemsOf(cs.aid))
+                 d0 == AlgDefault0(Fam, c.T, c.dflt)
+             IN /\ cs' = c
+                /\ cur' = IF d0 = Rej \/ d0 = NoVal THEN NoVal ELSE IF c.chan = "argv" \/ c.items = << >> THEN AlgSubDefaults(Fam, c.T, d0) ELSE d0
+          /\ pc' = "source" /\ UNCHANGED <<i, ok, log>>
 MCNext == ABuild \/ Next
 Spec == Init /\ [][MCNext]_vars
 
@@ -138,6 +159,7 @@ Spec == Init /\ [][MCNext]_vars
 \* (the family is emitted once, by the ASSUME; a case carries its sources, their explicit form and what the spec predicts)
 ASSUME Emit => PrintT(ToJson([fam |-> Fam]))
 EmitCase == (Emit /\ Done) =>
-  PrintT(ToJson([id |-> cs.aid, T |-> cs.T, items |-> cs.items, explicit |-> ExplicitItems(Fam, cs.T, cs.items),
+  PrintT(ToJson([id |-> cs.aid, T |-> cs.T, items |-> cs.items, dflt |-> cs.dflt, chan |-> cs.chan,
+                 explicit |-> IF cs.dflt = NoVal THEN ExplicitItems(Fam, cs.T, cs.items) ELSE << >>,
                  alg |-> AlgParsed, ref |-> RefOf(NoDev), code |-> RefOf(CodeDev), log |-> log]))
 =============================================================================
